@@ -1193,6 +1193,11 @@ struct ssl
 
     unsigned char sessionIdLen;
     unsigned char sessionId[SSL_MAX_SESSION_ID_SIZE];
+    unsigned char sessionIdInTable; /* Servers: sessionId refers to the
+                                       session table entry this session
+                                       registered or resumed. Otherwise it is
+                                       just the value the client sent (echoed
+                                       for a ticket resumption or in TLS 1.3) */
     sslSessionId_t *sid;
     char *expectedName;               /* Clients: The expected cert subject name
                                               passed to NewClient Session
